@@ -143,9 +143,13 @@ class ProbeMixin:
                 return (0, 0.0, o.placed_at, o.order_id)
             return (1, -o.price if o.is_buy else o.price, o.placed_at, o.order_id)
         pre = [(o.order_id, o.is_buy, key(o), o.volume) for o in list(self.buy_order_book.priority_queue) + list(self.sell_order_book.priority_queue)]
+        objs = list(self.buy_order_book.priority_queue) + list(self.sell_order_book.priority_queue)
+        vol0 = [o.volume for o in objs]
         ls = super()._execution()
+        # what really left the book in this round: the volume each resting order lost
+        delta = {(o.is_buy, o.order_id): v0 - o.volume for o, v0 in zip(objs, vol0) if v0 != o.volume}
         W.rec("round", self.market_id, ls, running,
-              dict(mp=self.get_market_price(), mp0=self.get_market_price(0), running_after=self._is_running, t=self.time, pre=pre))
+              dict(mp=self.get_market_price(), mp0=self.get_market_price(0), running_after=self._is_running, t=self.time, pre=pre, delta=delta))
         return ls
 
     def _update_time(self, *a, **k):
@@ -318,7 +322,45 @@ class SizedRecLogger(RecLogger):
         return len(self.kept)
 
 
-LOGGERS = {"rec": RecLogger, "sized": SizedRecLogger, "none": lambda: None}
+class _TradeHandlers(RecLogger):
+    """handlers for order / cancel / expiry / fill records, defined one level above the logger class that is used"""
+
+    def process_order_log(self, log):
+        W.rec("lh", log)
+
+    def process_cancel_log(self, log):
+        W.rec("lh", log)
+
+    def process_expiration_log(self, log):
+        W.rec("lh", log)
+
+    def process_execution_log(self, log):
+        W.rec("lh", log)
+
+
+class LayeredRecLogger(_TradeHandlers):
+    """a logger the way users layer them: this class adds the boundary and step handlers, the trade handlers are inherited"""
+
+    def process_simulation_begin_log(self, log):
+        W.rec("lh", log)
+
+    def process_simulation_end_log(self, log):
+        W.rec("lh", log)
+
+    def process_session_begin_log(self, log):
+        W.rec("lh", log)
+
+    def process_session_end_log(self, log):
+        W.rec("lh", log)
+
+    def process_market_step_begin_log(self, log):
+        W.rec("lh", log)
+
+    def process_market_step_end_log(self, log):
+        W.rec("lh", log)
+
+
+LOGGERS = {"rec": RecLogger, "sized": SizedRecLogger, "none": lambda: None, "layered": LayeredRecLogger}
 
 HOOK_KINDS = [("order", True), ("order", False), ("cancel", True), ("cancel", False), ("execution", False),
               ("session", True), ("session", False), ("market", True), ("market", False)]
